@@ -1,8 +1,8 @@
 (* C09 -- the model card is an ordered section tree with stable addressing.
    Only statements, each closed by `exact`.  Model: coq/card/{CardStr,Path,Tree,Ops,Spec}.v
    (faithful to skops/card/_model_card.py after the D13 and C09-F1 fixes); proofs: coq/card/*Facts.v. *)
-From Skv Require Import PyStr Json CardStr Path Tree Ops Render Spec
-                        PathFacts TreeFacts OpsFacts BuildersFacts.
+From Skv Require Import PyStr Json CardStr Path Tree Ops Render Spec Init
+                        PathFacts TreeFacts OpsFacts BuildersFacts InitFacts.
 Open Scope N_scope.
 
 (* ---- path parsing -------------------------------------------------------- *)
@@ -110,6 +110,32 @@ Print Assumptions C09_run_is_history.
 Theorem C09_reachable_wf : forall ops, wf_dict (data (run_card ops empty_card)).
 Proof. exact reachable_wf. Qed.
 Print Assumptions C09_reachable_wf.
+
+(* ---- cards constructed from a template ------------------------------------ *)
+(* Card(model, template=t, model_diagram=dg) is the run of the constructor's planned builder calls (init_ops: C14_init_plan)
+   on the empty card -- for EVERY configuration cfg of the module-level data (template listing, valid names, default
+   sections), every template, model_diagram and oracle value; when the constructor raises, fst is the empty card and
+   init_ops is [].  So a constructed card edited by ANY operation sequence is a card reached from the empty card ... *)
+Theorem C09_constructed_is_run : forall cfg t dg params html ops,
+  run_card ops (fst (init_card cfg t dg params html)) = run_card (init_ops cfg t dg params html ++ ops) empty_card.
+Proof. exact constructed_run. Qed.
+Print Assumptions C09_constructed_is_run.
+
+(* ... and the history theorems hold for it: unique keys at every level, *)
+Theorem C09_constructed_wf : forall cfg t dg params html ops,
+  wf_dict (data (run_card ops (fst (init_card cfg t dg params html)))).
+Proof. exact constructed_wf. Qed.
+Print Assumptions C09_constructed_wf.
+
+(* select returns what the history (the constructor's writes first) says was last written there *)
+Theorem C09_constructed_select_after : forall cfg t dg params html ops key, ~ In [] (split_names key) ->
+  match snd (run_op (OSelect key) (run_card ops (fst (init_card cfg t dg params html)))) with
+  | Selected x => val (split_names key) (rev (history (init_ops cfg t dg params html ++ ops) [])) [] = Some (shallow x)
+  | Failed e => e = EKey /\ val (split_names key) (rev (history (init_ops cfg t dg params html ++ ops) [])) [] = None
+  | Done => False
+  end.
+Proof. exact constructed_select_after. Qed.
+Print Assumptions C09_constructed_select_after.
 
 (* ---- chained select ------------------------------------------------------ *)
 (* FULL STATEMENT (finding C09-F1 repaired: Card.select now rejects an empty name anywhere, as Section.select does):
